@@ -297,9 +297,22 @@ def handle : Handler := fun op inp impl =>
     let mHdrs := ConfModel.RawMerge.finishHeaders canonS [] snap (given.map fun h => (h.name, h.values))
       (givenT.map fun h => (h.name, h.values))
     let modelOk := names.all fun k => k == "Trailer" || k == "Date" || valuesOf hdrs k == ConfModel.RawMerge.get mHdrs k
-    { agree := implErr == "" && status == wantStatus && body == mBody && modelOk, holds := holds,
-      nontrivial := names.any (fun k => !(valuesOf base k).isEmpty),
-      cls := str (field inp "proc") ++ ":" ++ str (field inp "proto") ++ (if str (field inp "origin") == "" then "" else ":origin"),
+    -- the arbitration model with both producers of raw responses: the recorder stores the prescribed
+    -- one; the handler (which would answer the rest of the definition, for a unary gRPC / gRPC-Web
+    -- error with response headers by a raw response of its own) does not run
+    let extra := field inp "extra"
+    let rpc := str (field inp "rpc")
+    let synth := !isNull extra && !isNull (field extra "error") && !(arr (field extra "headers")).isEmpty
+      && (rpc == "grpc" || rpc == "grpcweb") && str (field inp "proc") == "Unary"
+    let handlerOps : List Op :=
+      if isNull extra then [] else if synth then [.setRaw ⟨200, []⟩] else [.writeHeader 200, .write [104], .flush]
+    let (arbStatus, arbBody) := match finish (run {} (recorded (some ⟨nat (field inp "status"), mBody⟩) handlerOps)).1 with
+      | [.header c, .body b] => (c, b)
+      | _ => (0, [])
+    { agree := implErr == "" && status == arbStatus && body == arbBody && modelOk, holds := holds,
+      nontrivial := names.any (fun k => !(valuesOf base k).isEmpty) || !isNull extra,
+      cls := str (field inp "proc") ++ ":" ++ str (field inp "proto") ++ (if str (field inp "origin") == "" then "" else ":origin")
+        ++ (if isNull extra then "" else ":" ++ rpc ++ (if synth then ":definition-with-error-and-headers" else ":definition-with-more")),
       model := Json.mkObj [("status", wantStatus), ("body", hex mBody), ("bodyFailed", mFailed),
         ("headers", toJson (names.map fun k => (k, ConfModel.RawMerge.get mHdrs k)))],
       why := if holds then "" else
